@@ -346,10 +346,11 @@ def sim_edges(g, faults=None):
     for e in g['edges']:
         if e['phony']:
             continue
-        s = dict(reads=models.true_reads(g, e, ph), hidden=list(e.get('hidden', [])), variant=models.content_variant(e),
+        # report_extra: files the command lists in its depfile / showIncludes output without reading them (its own output)
+        s = dict(reads=models.true_reads(g, e, ph), hidden=list(e.get('hidden', [])) + list(e.get('report_extra', [])), variant=models.content_variant(e),
                  depfile_layout=e.get('depfile_layout', 0))
         if e.get('spell') and e.get('deps') in ('gcc', 'depfile'):
-            s['hidden_spelled'] = [spell(h, e['spell']) for h in e.get('hidden', [])]
+            s['hidden_spelled'] = [spell(h, e['spell']) for h in list(e.get('hidden', [])) + list(e.get('report_extra', []))]
         if e.get('df_targets') and e.get('deps') in ('gcc', 'depfile'):
             s['depfile_target'] = " ".join(depfile_targets(e))
         if e.get('content_override'):
